@@ -115,9 +115,27 @@ func walletAuthoring(r *evid.Run, dir string, cs int64) {
 		if explicit {
 			usable = elig[:k]
 		}
+		// half of the sweep-like requests use the random strategy, which first drops
+		// every coin that does not pay for its own input (judged per coin, by the
+		// smallest size an input of ITS type can have) and may then spend all the
+		// others: coins clearly worth more than their worst-case input count in full,
+		// coins within 2 vB of the line count as a loss only
+		strategy := wallet.CoinSelectionLargest
+		random := sweepLike && rg.Intn(2) == 0
+		if random {
+			strategy = wallet.CoinSelectionRandom
+		}
 		var netAll int64
 		for _, c := range usable {
-			netAll += c.Out.Value - int64(feeFor(rate, worstInputVSize(c.Out.PkScript)))
+			worst := int64(feeFor(rate, worstInputVSize(c.Out.PkScript)))
+			switch {
+			case !random:
+				netAll += c.Out.Value - worst
+			case c.Out.Value > worst:
+				netAll += c.Out.Value - worst
+			case c.Out.Value >= int64(feeFor(rate, worstInputVSize(c.Out.PkScript)-2)):
+				netAll -= worst - c.Out.Value // kept or dropped: at worst this much is lost
+			}
 		}
 		// overhead + a change output of the largest type; the requested outputs are
 		// added below, once they are known.  Every size here is >= the wallet's own
@@ -153,13 +171,17 @@ func walletAuthoring(r *evid.Run, dir string, cs int64) {
 			opts = append(opts, wallet.WithCustomSelectUtxos(picks))
 			r.Hit("wallet-requests-with-explicitly-selected-coins", 1)
 		}
-		atx, err := f.W.CreateSimpleTx(scp, acct, outs, 1, rate, wallet.CoinSelectionLargest, false, opts...)
+		atx, err := f.W.CreateSimpleTx(scp, acct, outs, 1, rate, strategy, false, opts...)
 		if acct == waddrmgr.ImportedAddrAccount && err == nil {
 			r.Hit("wallet-authored-from-the-imported-keys-account", 1)
 		}
 		desc := fmt.Sprintf("CreateSimpleTx scope=%v account=%d amount=%d in %d outputs rate=%d (placed on the %d largest of %d eligible coins: %v)", sc, acct, amt, nout, rate, k, len(elig), placed)
 		if sweepLike {
 			desc += " [all scopes, nearly everything the coins yield]"
+		}
+		if random {
+			desc += " [random strategy]"
+			r.Hit("wallet-sweep-like-requests-with-the-random-strategy", 1)
 		}
 		if explicit {
 			desc += " [those coins selected explicitly]"
